@@ -77,6 +77,45 @@ class WebsocketsProxy:
         return getattr(self._real, name)
 
 
+class _ServeCtx:
+    """what `websockets.serve(...)` returns inside the server's connector module: the real unix_serve(...) object, usable with
+    `async with` or `await` like the real one; the World learns the server object when it is up."""
+
+    def __init__(self, inner, world):
+        self._inner, self._world = inner, world
+
+    def _up(self, srv):
+        self._world.server = srv
+        self._world._server_up.set()
+        return srv
+
+    async def __aenter__(self):
+        return self._up(await self._inner.__aenter__())
+
+    async def __aexit__(self, *a):
+        return await self._inner.__aexit__(*a)
+
+    def __await__(self):
+        async def go():
+            return self._up(await self._inner)
+        return go().__await__()
+
+
+class ServerWebsocketsProxy:
+    """Stands in for the name `websockets` inside frontend.server.connector: serve(handler, host, port, **kw) listens on the
+    world's UNIX-domain socket instead, with exactly the keyword arguments the connector passes (max_size, ...)."""
+
+    def __init__(self, real, world):
+        self._real, self._world = real, world
+
+    def __getattr__(self, name):
+        return getattr(self._real, name)
+
+    def serve(self, handler, host=None, port=None, **kw):
+        self._world.serve_kwargs = dict(kw)
+        return _ServeCtx(self._real.unix_serve(handler, self._world.sock, **kw), self._world)
+
+
 class World:
     def __init__(self, repo, base, echo_cap=1.5, cleanup_delay=0.0):
         fs.setup_env(repo)
@@ -116,7 +155,21 @@ class World:
             os.unlink(self.sock)
         except OSError:
             pass
-        self.server = await self.websockets.unix_serve(self.connector.handler, self.sock, max_size=None)
+        # the server is started by the connector's own run_server() (its `websockets` is the proxy above), so that the
+        # options it passes to serve() are the ones in force; only if that entry point is gone the harness serves itself
+        self._server_up = asyncio.Event()
+        self.server_task = None
+        if hasattr(self.connector, "run_server"):
+            self.connector.websockets = ServerWebsocketsProxy(self.websockets, self)
+            self.server_task = asyncio.get_running_loop().create_task(self.connector.run_server("127.0.0.1", 0))
+            waiter = asyncio.get_running_loop().create_task(self._server_up.wait())
+            await asyncio.wait({waiter, self.server_task}, timeout=10, return_when=asyncio.FIRST_COMPLETED)
+            waiter.cancel()
+            if not self._server_up.is_set():
+                exc = self.server_task.exception() if self.server_task.done() and not self.server_task.cancelled() else None
+                raise RuntimeError("connector.run_server did not bring a server up: %r" % (exc,))
+        else:
+            self.server = await self.websockets.unix_serve(self.connector.handler, self.sock, max_size=None)
         self.port = 0
         self.global_config.ClientConfig.SERVER_URI = "ws://127.0.0.1:%d" % self.port
 
@@ -134,6 +187,13 @@ class World:
             except asyncio.TimeoutError:
                 pass
             self.server = None
+        if getattr(self, "server_task", None) is not None:
+            self.server_task.cancel()
+            try:
+                await self.server_task
+            except BaseException:
+                pass
+            self.server_task = None
         for t in self.sproxy.tasks:
             if not t.done():
                 t.cancel()
@@ -224,6 +284,7 @@ class World:
         self.sm.asyncio = asyncio
         self.cservice.asyncio = asyncio
         self.cservice.websockets = self.websockets
+        self.connector.websockets = self.websockets
 
     # ------------------------------------------------------------------ projections
     def client_state(self, sid):
